@@ -177,7 +177,8 @@ var SubstrFunc = function.New(&function.Spec{
 			}
 
 			offset += totalLen
-		} else if length == 0 {
+		}
+		if length == 0 {
 			// Short circuit here, after error checks, because if a
 			// string of length 0 has been requested it will always
 			// be the empty string
